@@ -1,6 +1,6 @@
 ------------------------------- MODULE MCAuth -------------------------------
 EXTENDS Auth, Json, Sequences
 Export == emitted # "pending" =>
-  PrintT("REPLAY " \o ToJson([cfg |-> msg.cfg, sk |-> msg.sk, uk |-> msg.uk, form |-> msg.form, claim |-> msg.claim, prior |-> msg.prior,
+  PrintT("REPLAY " \o ToJson([cfg |-> msg.cfg, sk |-> msg.sk, uk |-> msg.uk, form |-> msg.form, claim |-> msg.claim, prior |-> msg.prior, at |-> msg.at,
                               expect |-> [emit |-> emitted = "yes", user |-> authUser, reply |-> replyKey]]))
 =============================================================================
